@@ -214,6 +214,9 @@ func runClosedMvn(cs *fw.Case, r *prng.Rand) {
 		class = "d>=2,floor-active"
 	}
 	sigBase := fmt.Sprintf("C16|%s|vectorNormal|%s", cs.Monitor, class)
+	if illClass(spread) != "" && !(clamped && dim >= 2) {
+		sigBase = "C16|closed|vectorNormal-moments|" + spread
+	}
 	if p != nil {
 		cs.Violation(sigBase+"|panic", p.Msg+"\n"+p.Stack, wit)
 		return
@@ -254,8 +257,9 @@ func runClosedMvn(cs *fw.Case, r *prng.Rand) {
 		}
 	}
 	if asym > 1e-9 {
-		cs.Violation(sigBase+"|asymmetric-covariance", fmt.Sprintf("Sigma differs from its transpose by %.3g relative to the diagonal", asym), wit)
-		return
+		// not part of the property (the likelihood depends on the symmetric part
+		// only); counted for the evidence
+		cs.Cover("mvn:asymmetric-estimate(>1e-9)")
 	}
 	wit["estimate"] = theta
 	fam := mvnFam{dim, smin}
